@@ -71,6 +71,15 @@ def gen_cases(ctx, bom=True, nl=False, nrand=None, deep=None):
         # refill-aligned variants (pad, b): every state's witness with a byte class / the BOM / end of input placed on, just
         # before and just after the 4096-byte refill of the reader front-ends (all reader variants run on these)
         ctx.run([pb, "align", "-states", sts, "-per", "6" if ctx.quick else "40"], stdout=f)
+        if bom:
+            # a BOM is removed ONCE and only at the very start: repeated, partial and displaced BOMs in front of short documents
+            B = [0xEF, 0xBB, 0xBF]
+            pres = [B + B, B + B + B, B + [32] + B, B + B + [32], [32] + B, [10] + B, B[:2] + B, B + B[:1], B + B[:2], B + [10] + B + [10],
+                    B + [0xEF], B + [0xBB], B + [0xBF], B + [0xFE, 0xFF], B + [0xFF, 0xFE]]
+            docs = ["", " ", "1", "0 ", "[]", "{}", "[1]", '{"a":1}', '"a"', "null", "true", "nul", "[1,]", "x", "[", '"', "-", "1 2", "{} {}"]
+            for pre in pres:
+                for d in docs:
+                    f.write((json.dumps({"b": pre + list(d.encode()), "src": "bom-rep"}) + "\n").encode())
     return out
 
 
